@@ -173,9 +173,11 @@ def impl(case):
                 except ValueError:
                     continue
                 for want_succ in (True, False):
-                    for mode in ("empty", "subset", "wrong"):
+                    for mode in ("empty", "subset", "wrong", "none_missing"):
                         sf = {}
-                        if first is not None and mode != "empty":
+                        if mode == "none_missing":
+                            sf = {"f_absent": None}      # an expected field that is absent, expected value None
+                        elif first is not None and mode != "empty":
                             items = [(k, v) for k, v in first.start_message.items() if k.startswith("f")][:2]
                             sf = dict(items)
                             if mode == "wrong":
@@ -191,8 +193,8 @@ def impl(case):
             for t in (12, 13):
                 name = progs.type_name(t)
                 ms = LoggedMessage.of_type(messages, name)
-                for mode in ("empty", "wrong"):
-                    f = {} if mode == "empty" else {"f_nonexistent": 1}
+                for mode in ("empty", "wrong", "none_missing"):
+                    f = {} if mode == "empty" else ({"f_nonexistent": 1} if mode == "wrong" else {"f_absent": None})
                     try:
                         assertHasMessage(tc, logger2, name, f)
                         ok = True
